@@ -61,6 +61,59 @@ theorem insert_treats_keys_independently_on_model_extension [DecidableEq α] (nu
     (∀ k, (∀ c ∈ validClasses o.shp, k ∉ roundKeys (toContent o) (missingOn sv kc0 o) c) → kc'.get k = kc0.get k) :=
   Src.insert_try_per_key_on_ext null ss sn sd bases kc0 kc' hk sv hsv o h3 h5 hn on dim h
 
+/-- **what `_insert` does to one key along a spatial axis that is not the slice axis is the model's `stepNonSliceK`**: the
+    translated reclassification followed by the translated insertion, on the dictionaries of a key held as the model holds it,
+    give the dictionaries of the model's result (or `ValueError` where the model has its error) — for a key at least one side
+    has, when `self` and `other` have the same slices, time points and vector components (a merge along a non-slice spatial
+    axis changes none of them) -/
+theorem insert_key_step_non_slice_is_model (null : α) (e o : DExt κ α) (sd dim : Nat)
+    (h3 : 3 ≤ e.shape.length) (h5 : e.shape.length ≤ 5) (hpos : ∀ x ∈ e.shape, 0 < x) (hsl : e.sliceDim = some sd)
+    (ho3 : 3 ≤ o.shape.length) (ho5 : o.shape.length ≤ 5) (hopos : ∀ x ∈ o.shape, 0 < x) (hsd : sd < o.shape.length)
+    (hsh : o.shp (some sd) = e.shp) (hvo : validClasses o.shp = validClasses e.shp)
+    (hbase : ∀ d, basePresent e.shp d = true → d ∈ validClasses e.shp)
+    (hdim : dim < 3) (hds : dim ≠ sd)
+    (ks other : KeyState α) (hks : ∀ c v, ks = some (c, v) → c ∈ validClasses e.shp ∧ mult e.shp c ≠ 0)
+    (hother : ∀ c v, other = some (c, v) → c ∈ validClasses o.shp ∧ mult o.shp c ≠ 0)
+    (hnn : ¬ (ks = none ∧ other = none))
+    (valid : List Cls) (oc : Content κ α) (k : κ) (hov : Content.valuesAndClass valid oc k = other) :
+    keyStep null e.shape (e.sliceDim.map fun d => e.shape.getD d 1) (some sd) (contentOf' e) o.shape
+        (o.sliceDim.map fun d => o.shape.getD d 1) valid oc dim (otherClass other) k (toDict ks) =
+      errV ((stepNonSliceK null e.shp ks other).map toDict) :=
+  Src.keyStep_non_slice_eq null e o sd dim h3 h5 hpos hsl ho3 ho5 hopos hsd hsh hvo hbase hdim hds ks other hks hother hnn valid oc k hov
+
+/-- **what `_insert` does to one key along the slice axis is the model's `stepSliceK`** -/
+theorem insert_key_step_slice_is_model (null : α) (e o : DExt κ α) (sd : Nat)
+    (h3 : 3 ≤ e.shape.length) (h5 : e.shape.length ≤ 5) (hpos : ∀ x ∈ e.shape, 0 < x) (hsl : e.sliceDim = some sd)
+    (hosl : o.sliceDim.isSome = true)
+    (ho3 : 3 ≤ o.shape.length) (ho5 : o.shape.length ≤ 5) (hopos : ∀ x ∈ o.shape, 0 < x) (hsd : sd < o.shape.length)
+    (hsh : o.shp (some sd) = { e.shp with S := 1 }) (hvo : ∀ c ∈ validClasses o.shp, c ∈ validClasses e.shp)
+    (hbase : ∀ d, basePresent e.shp d = true → d ∈ validClasses e.shp)
+    (ks other : KeyState α) (hks : ∀ c v, ks = some (c, v) → c ∈ validClasses e.shp ∧ mult e.shp c ≠ 0)
+    (hother : ∀ c v, other = some (c, v) → c ∈ validClasses o.shp ∧ mult o.shp c ≠ 0)
+    (hnn : ¬ (ks = none ∧ other = none))
+    (valid : List Cls) (oc : Content κ α) (k : κ) (hov : Content.valuesAndClass valid oc k = other) :
+    keyStep null e.shape (e.sliceDim.map fun d => e.shape.getD d 1) (some sd) (contentOf' e) o.shape
+        (o.sliceDim.map fun d => o.shape.getD d 1) valid oc sd (otherClass other) k (toDict ks) =
+      errV ((stepSliceK null e.shp ks other).map toDict) :=
+  Src.keyStep_slice_eq null e o sd h3 h5 hpos hsl hosl ho3 ho5 hopos hsd hsh hvo hbase ks other hks hother hnn valid oc k hov
+
+/-- **what `_insert` does to one key along the time (3) or vector (4) axis is the model's `stepSampleK`** -/
+theorem insert_key_step_sample_is_model (null : α) (e o : DExt κ α) (sd : Nat) (isTime : Bool)
+    (h3 : 3 ≤ e.shape.length) (h5 : e.shape.length ≤ 5) (hpos : ∀ x ∈ e.shape, 0 < x) (hsl : e.sliceDim = some sd) (hsd3 : sd < 3)
+    (ho3 : 3 ≤ o.shape.length) (ho5 : o.shape.length ≤ 5) (hopos : ∀ x ∈ o.shape, 0 < x) (hsd : sd < o.shape.length)
+    (hoT : e.shape.length = 5 → 3 < o.shape.length)
+    (hsamp : (if isTime then tsamples else vsamples) ∈ validClasses e.shp)
+    (hvo : ∀ c ∈ validClasses o.shp, c ∈ validClasses e.shp)
+    (hbase : ∀ d, basePresent e.shp d = true → d ∈ validClasses e.shp)
+    (ks other : KeyState α) (hks : ∀ c v, ks = some (c, v) → c ∈ validClasses e.shp ∧ mult e.shp c ≠ 0)
+    (hother : ∀ c v, other = some (c, v) → c ∈ validClasses o.shp ∧ mult o.shp c ≠ 0)
+    (hnn : ¬ (ks = none ∧ other = none))
+    (valid : List Cls) (oc : Content κ α) (k : κ) (hov : Content.valuesAndClass valid oc k = other) :
+    keyStep null e.shape (e.sliceDim.map fun d => e.shape.getD d 1) (some sd) (contentOf' e) o.shape
+        (o.sliceDim.map fun d => o.shape.getD d 1) valid oc (if isTime then 3 else 4) (otherClass other) k (toDict ks) =
+      errV ((stepSampleK null isTime e.shp (o.shp (some sd)) ks other).map toDict) :=
+  Src.keyStep_sample_eq null e o sd isTime h3 h5 hpos hsl hsd3 ho3 ho5 hopos hsd hoT hsamp hvo hbase ks other hks hother hnn valid oc k hov
+
 /-- the translator translated every function of this group (dcmmeta.py: _insert as a whole) -/
 theorem translator_complete_insertall : Gen.codeMissing_insertall = [] := rfl
 
